@@ -99,6 +99,9 @@ class UMNDirHandler(DirHandler):
         capfilename = self.selectorbase + "/.cap/" + file
 
         try:
+            if not self.vfs.isfile(capfilename):
+                # No capfile, or something (a FIFO, ...) that cannot be read
+                raise IOError("no capfile")
             capinfo = self.processLinkFile(capfilename, fileentry.getselector())
             if len(capinfo) >= 1:  # We handle one and only one entry.
                 if capinfo[0].gettype() == "X" or capinfo[0].gettype() == "-":
